@@ -144,6 +144,51 @@ theorem drain_spec (maxlen : Nat) (numSteps : Option Nat) :
               have e : k - s.cnt = (k - (s.cnt + 1)) + 1 := by omega
               rw [e, List.take_succ_cons]
 
+/-- **Nothing disappears inside the iterator**: what was delivered, followed by what the final state still
+holds (its cache and the kept part of the refills not yet fetched), is everything the initial state held. -/
+theorem drain_rest (maxlen : Nat) (numSteps : Option Nat) :
+    ∀ (fuel : Nat) (s : St α), (∀ b ∈ s.pending, b ≠ []) → (s.rest maxlen).length < fuel →
+      (drainFuel maxlen numSteps fuel s).1 ++ (drainFuel maxlen numSteps fuel s).2.2.rest maxlen = s.rest maxlen := by
+  intro fuel
+  induction fuel with
+  | zero => intro s _ h; exact absurd h (Nat.not_lt_zero _)
+  | succ fuel ih =>
+    intro s hne hfuel
+    unfold drainFuel next
+    by_cases hk : numSteps = some s.cnt
+    · simp only [hk, if_true]
+      simp [St.rest]
+    · simp only [hk, if_false]
+      cases hc : s.cache with
+      | cons a rest =>
+        simp only []
+        have hs' := ih { s with cache := rest, cnt := s.cnt + 1 } hne
+          (by simp only [St.rest, hc, List.cons_append, List.length_cons] at hfuel ⊢; omega)
+        simp only [List.cons_append, hs']
+        simp [St.rest, hc]
+      | nil =>
+        cases hp : s.pending with
+        | nil =>
+          simp only []
+          simp [St.rest, hc, hp]
+        | cons b bs =>
+          simp only []
+          have hb : b ≠ [] := hne b (by rw [hp]; exact List.mem_cons_self)
+          have hkb : kept maxlen b ≠ [] := kept_ne_nil hb
+          cases hkk : dequeExtend maxlen [] b with
+          | nil => exact absurd hkk hkb
+          | cons a rest =>
+            simp only []
+            have hkept : kept maxlen b = a :: rest := hkk
+            have hs' := ih { s with cache := rest, pending := bs, cnt := s.cnt + 1 }
+              (by intro b' hb'; exact hne b' (by rw [hp]; exact List.mem_cons_of_mem _ hb'))
+              (by
+                simp only [St.rest, hc, hp, List.flatMap_cons, hkept, List.nil_append, List.cons_append,
+                  List.length_cons] at hfuel ⊢
+                omega)
+            simp only [List.cons_append, hs']
+            simp [St.rest, hc, hp, hkept]
+
 theorem flatMap_kept_length_le (maxlen : Nat) (bs : List (List α)) :
     (bs.flatMap (kept maxlen)).length ≤ bs.flatten.length := by
   induction bs with
@@ -180,6 +225,19 @@ theorem ending_stop (maxlen : Nat) (numSteps : Option Nat) (batches : List (List
       have := flatMap_kept_length_le maxlen batches
       omega)
     (by intro k _; exact Nat.zero_le k)).2
+
+/-- conservation for a fresh iterator -/
+theorem delivered_rest (maxlen : Nat) (numSteps : Option Nat) (batches : List (List α))
+    (hne : ∀ b ∈ batches, b ≠ []) :
+    delivered maxlen numSteps batches ++ (ending maxlen numSteps batches).2.rest maxlen
+      = batches.flatMap (kept maxlen) := by
+  unfold delivered ending
+  have h := drain_rest maxlen numSteps (St.fuel { pending := batches }) { pending := batches } hne
+    (by
+      simp only [St.rest, St.fuel, List.nil_append, List.length_nil, Nat.zero_add]
+      have := flatMap_kept_length_le maxlen batches
+      omega)
+  simpa [St.rest] using h
 
 theorem flatMap_kept_zero (bs : List (List α)) : bs.flatMap (kept 0) = bs.flatten := by
   induction bs with
